@@ -14,6 +14,10 @@ import (
 	"golang.org/x/tools/go/ssa"
 )
 
+// goroutinePanic carries an unrecovered target panic of a background goroutine
+// to the path runner (it cannot be recovered by the main goroutine's defers).
+type goroutinePanic struct{ tp targetPanic }
+
 type gstate struct {
 	id      int
 	wake    chan struct{}
@@ -66,7 +70,7 @@ func (in *interpreter) spawn(fn value, args []value, pos token.Pos) {
 				if _, ok := p.(abortPanic); !ok && s.failure == nil {
 					if tp, ok := p.(targetPanic); ok {
 						// an unrecovered panic in a goroutine kills the program
-						s.failure = pathEnd{"goroutine-panic", tp.String()}
+						s.failure = goroutinePanic{tp}
 					} else {
 						s.failure = p
 					}
